@@ -1,6 +1,6 @@
 (* Executable model of spifconf_shell_expand (src/conf.c), of the variable store
-   (spifconf_get_var / spifconf_put_var) and of the built-ins %get %put %version %appname
-   (property C10).  The model follows the code AFTER the C10 repairs (see the `fix:` commits):
+   (spifconf_get_var / spifconf_put_var), of the built-ins %get %put %version %appname %exec %dirscan
+   and of calls to functions the application registered (property C10).  The model follows the code AFTER the C10 repairs (see the `fix:` commits):
 
      - $NAME / ${NAME} / $(NAME): the value is copied to newbuff + j (was: newbuff); an unset or
        empty variable takes j back by one (was: one cell skipped, never written); the scans of
@@ -303,6 +303,26 @@ Variable progname progver : list byte.
 (* the outside world: the output of a command, the regular files of a directory *)
 Variable exec_out : list byte -> exec_answer.
 Variable dir_list : list byte -> dir_answer.
+(* the functions the application registered with spifconf_register_builtin, in registration order:
+   name and code; they sit in builtins[] behind the entries spifconf_init_subsystem made (Gen/ExpandGen.v:
+   builtin_table), up to the first entry whose name is NULL.  What an application function returns is its own
+   business: a parameter like getenv - from the code and the argument (NULL, or the text of the expanded
+   argument) to NULL or a string *)
+Variable extra : list (list byte * Z).
+Variable ufn : Z -> option (list byte) -> option (list byte).
+
+(* builtins[0 .. builtin_idx): the scan `for (k = 0; builtins[k].name; k++)` walks exactly these entries *)
+Definition full_table : list (list byte * Z) := builtin_table ++ extra.
+
+Definition bres_of (o : option (list byte)) : bres :=
+  match o with Some v => BStr v | None => BNull end.
+
+(* an application function: it reads its argument (a C string) and answers *)
+Definition builtin_user (code : Z) (param : option buf) : res bres :=
+  match param with
+  | None => Ok (bres_of (ufn code None))
+  | Some pb => _ <- strlen pb ;; Ok (bres_of (ufn code (Some (take_str pb))))
+  end.
 
 (* builtin_get: param NULL or more than two words -> NULL; value of word 1, else word 2, else NULL *)
 Definition builtin_get (param : option buf) (st : store) : res bres :=
@@ -394,7 +414,8 @@ Definition call_builtin (code : Z) (param : option buf) (st : store) : res (bres
     | None => Ok (BNull, st)
     | Some _ => Ok (BExt Random, st)
     end
-  else (r <- builtin_dirscan param ;; Ok (r, st)).
+  else if code =? 6 then (r <- builtin_dirscan param ;; Ok (r, st))
+  else (r <- builtin_user code param ;; Ok (r, st)).
 
 (* ---------------------------------------------------------------------------------- *)
 (* the loop  for (j = 0; *pbuff && j < max; pbuff++, j++) switch ( *pbuff) { ... }       *)
@@ -428,7 +449,7 @@ Definition xbody (self : buf -> buf -> Z -> bool -> bool -> store -> res lres)
         (nb1 <- wrz nb j c ;; nb2 <- wrz nb1 (u32 (j + 1)) c1 ;; next (tl (tl p)) nb2 (u32 (j + 1)) q1 q2 st)
     else if c =? 37 then                                   (* '%' *)
       let p1 := tl p in
-      fb <- find_builtin builtin_table p1 ;;
+      fb <- find_builtin full_table p1 ;;
       match fb with
       | None =>
         c1 <- rdn p1 0 ;;
